@@ -6,50 +6,113 @@
 -/
 import Cel.Gen.Conv
 import Cel.Model.Conv
+import Cel.Model.ConvDispatch
 import Cel.Bridge.Num
 namespace Cel.Bridge.Conv
 open Cel
 
-theorem intTypeNewLadder_eq : Gen.Conv.intTypeNewLadder =
-    [("source is None", "return super().__new__(cls, 0)"),
-   ("isinstance(source, IntType)", "return source"),
-   ("isinstance(source, MessageType)", "return super().__new__(cls, cast(int, source.get(StringType('value'))))"),
-   ("isinstance(source, (float, DoubleType))", "convert = int64(trunc)"),
-   ("isinstance(source, TimestampType)", "convert = int64(lambda src: src.timestamp())"),
-   ("isinstance(source, (str, StringType)) and source[:2] in {'0x', '0X'}", "convert = int64(lambda src: int(src[2:], 16))"),
-   ("isinstance(source, (str, StringType)) and source[:3] in {'-0x', '-0X'}", "convert = int64(lambda src: -int(src[3:], 16))"),
-   ("else", "convert = int64(int)"),
-   ("then", "return super().__new__(cls, convert(source))")] := rfl
-theorem uintTypeNewLadder_eq : Gen.Conv.uintTypeNewLadder =
-    [("isinstance(source, UintType)", "return source"),
-   ("isinstance(source, (float, DoubleType))", "convert = uint64(trunc)"),
-   ("isinstance(source, TimestampType)", "convert = uint64(lambda src: src.timestamp())"),
-   ("isinstance(source, (str, StringType)) and source[:2] in {'0x', '0X'}", "convert = uint64(lambda src: int(src[2:], 16))"),
-   ("isinstance(source, MessageType)", "convert = uint64(lambda src: src['value'] if src['value'] is not None else 0)"),
-   ("source is None", "convert = uint64(lambda src: 0)"),
-   ("else", "convert = uint64(int)"),
-   ("then", "return super().__new__(cls, convert(source))")] := rfl
-theorem doubleTypeNewLadder_eq : Gen.Conv.doubleTypeNewLadder =
-    [("source is None", "return super().__new__(cls, 0)"),
-   ("isinstance(source, MessageType)", "return super().__new__(cls, cast(float, source.get(StringType('value'))))"),
-   ("else", "return super().__new__(cls, source)")] := rfl
-theorem stringTypeNewLadder_eq : Gen.Conv.stringTypeNewLadder =
-    [("isinstance(source, (bytes, BytesType))", "return super().__new__(cls, source.decode('utf'))"),
-   ("isinstance(source, (str, StringType))", "return super().__new__(cls, source)"),
-   ("else", "return cast(StringType, super().__new__(cls, source))")] := rfl
-theorem bytesTypeNewLadder_eq : Gen.Conv.bytesTypeNewLadder =
-    [("source is None", "return super().__new__(cls, b'')"),
-   ("isinstance(source, (bytes, BytesType))", "return super().__new__(cls, source)"),
-   ("isinstance(source, (str, StringType))", "return super().__new__(cls, source.encode('utf-8'))"),
-   ("isinstance(source, MessageType)", "return super().__new__(cls, cast(bytes, source.get(StringType('value'))))"),
-   ("isinstance(source, Iterable)", "return super().__new__(cls, source)"),
-   ("else", "raise TypeError(f'Invalid initial value type: {type(source)}')")] := rfl
-theorem boolTypeNewLadder_eq : Gen.Conv.boolTypeNewLadder =
-    [("source is None", "return super().__new__(cls, 0)"),
-   ("isinstance(source, BoolType)", "return source"),
-   ("isinstance(source, MessageType)", "return super().__new__(cls, cast(int, source.get(StringType('value'))))"),
-   ("isinstance(source, (str, StringType))", "if source in ('False', 'f', 'FALSE', 'false'):\n    return super().__new__(cls, 0)\nelif source in ('True', 't', 'TRUE', 'true'):\n    return super().__new__(cls, 1); return super().__new__(cls, source)"),
-   ("else", "return super().__new__(cls, source)")] := rfl
+/-! ## dispatch of the `__new__` ladders, compared semantically
+
+`xNewSpec k t`: for a source of exact class `k` (with text `t` when it is a str) the statements
+`X.__new__` executes — the pinned reading of the source the model (`Cel.Conv.intOfText` …) was written
+from.  The regenerated functions must agree for EVERY class and EVERY text; how the source spells
+the dispatch (nesting, `and`, early returns, order of tuple / set members) is immaterial. -/
+
+def intTypeNewSpec (k : Cel.Conv.Cls) (t : List Nat) : String :=
+  if Cel.Conv.isInst k [.NoneType] then "return super().__new__(cls, 0)"
+  else 
+    if Cel.Conv.isInst k [.IntType] then "return source"
+    else 
+      if Cel.Conv.isInst k [.MessageType] then "return super().__new__(cls, cast(int, source.get(StringType('value'))))"
+      else 
+        if Cel.Conv.isInst k [.float, .DoubleType] then "convert = int64(trunc); return super().__new__(cls, convert(source))"
+        else 
+          if Cel.Conv.isInst k [.TimestampType] then "convert = int64(lambda src: src.timestamp()); return super().__new__(cls, convert(source))"
+          else 
+            if (Cel.Conv.isInst k [.str, .StringType] && Cel.Conv.prefixIn t 2 [[48, 88], [48, 120]]) then "convert = int64(lambda src: int(src[2:], 16)); return super().__new__(cls, convert(source))"
+            else 
+              if (Cel.Conv.isInst k [.str, .StringType] && Cel.Conv.prefixIn t 3 [[45, 48, 88], [45, 48, 120]]) then "convert = int64(lambda src: -int(src[3:], 16)); return super().__new__(cls, convert(source))"
+              else "convert = int64(int); return super().__new__(cls, convert(source))"
+def uintTypeNewSpec (k : Cel.Conv.Cls) (t : List Nat) : String :=
+  if Cel.Conv.isInst k [.UintType] then "return source"
+  else 
+    if Cel.Conv.isInst k [.float, .DoubleType] then "convert = uint64(trunc); return super().__new__(cls, convert(source))"
+    else 
+      if Cel.Conv.isInst k [.TimestampType] then "convert = uint64(lambda src: src.timestamp()); return super().__new__(cls, convert(source))"
+      else 
+        if (Cel.Conv.isInst k [.str, .StringType] && Cel.Conv.prefixIn t 2 [[48, 88], [48, 120]]) then "convert = uint64(lambda src: int(src[2:], 16)); return super().__new__(cls, convert(source))"
+        else 
+          if Cel.Conv.isInst k [.MessageType] then "convert = uint64(lambda src: src['value'] if src['value'] is not None else 0); return super().__new__(cls, convert(source))"
+          else 
+            if Cel.Conv.isInst k [.NoneType] then "convert = uint64(lambda src: 0); return super().__new__(cls, convert(source))"
+            else "convert = uint64(int); return super().__new__(cls, convert(source))"
+def doubleTypeNewSpec (k : Cel.Conv.Cls) (t : List Nat) : String :=
+  if Cel.Conv.isInst k [.NoneType] then "return super().__new__(cls, 0)"
+  else 
+    if Cel.Conv.isInst k [.MessageType] then "return super().__new__(cls, cast(float, source.get(StringType('value'))))"
+    else "return super().__new__(cls, source)"
+def stringTypeNewSpec (k : Cel.Conv.Cls) (t : List Nat) : String :=
+  if Cel.Conv.isInst k [.bytes, .BytesType] then "return super().__new__(cls, source.decode('utf'))"
+  else 
+    if Cel.Conv.isInst k [.str, .StringType] then "return super().__new__(cls, source)"
+    else "return cast(StringType, super().__new__(cls, source))"
+def bytesTypeNewSpec (k : Cel.Conv.Cls) (t : List Nat) : String :=
+  if Cel.Conv.isInst k [.NoneType] then "return super().__new__(cls, b'')"
+  else 
+    if Cel.Conv.isInst k [.bytes, .BytesType] then "return super().__new__(cls, source)"
+    else 
+      if Cel.Conv.isInst k [.str, .StringType] then "return super().__new__(cls, source.encode('utf-8'))"
+      else 
+        if Cel.Conv.isInst k [.MessageType] then "return super().__new__(cls, cast(bytes, source.get(StringType('value'))))"
+        else 
+          if Cel.Conv.isInst k [.Iterable] then "return super().__new__(cls, source)"
+          else "raise TypeError(f'Invalid initial value type: {type(source)}')"
+def boolTypeNewSpec (k : Cel.Conv.Cls) (t : List Nat) : String :=
+  if Cel.Conv.isInst k [.NoneType] then "return super().__new__(cls, 0)"
+  else 
+    if Cel.Conv.isInst k [.BoolType] then "return source"
+    else 
+      if Cel.Conv.isInst k [.MessageType] then "return super().__new__(cls, cast(int, source.get(StringType('value'))))"
+      else 
+        if Cel.Conv.isInst k [.str, .StringType] then 
+          if Cel.Conv.textIn t [[70, 65, 76, 83, 69], [70, 97, 108, 115, 101], [102], [102, 97, 108, 115, 101]] then "return super().__new__(cls, 0)"
+          else 
+            if Cel.Conv.textIn t [[84, 82, 85, 69], [84, 114, 117, 101], [116], [116, 114, 117, 101]] then "return super().__new__(cls, 1)"
+            else "return super().__new__(cls, source)"
+        else "return super().__new__(cls, source)"
+
+/-- closes what `simp` leaves when the two sides nest or order their text tests differently: case
+split on every remaining test; contradictory combinations of text tests (`source[:2]` is `0x` and
+`source[:3]` is `-0x`) are refuted on the first characters of the text -/
+syntax "dispatch_tail " ident : tactic
+macro_rules
+  | `(tactic| dispatch_tail $t:ident) =>
+    `(tactic| (repeat' split) <;> first
+      | (simp_all; done)
+      | (rcases $t:ident with _ | ⟨_, _ | ⟨_, _ | ⟨_, _ | ⟨_, _⟩⟩⟩⟩ <;> simp_all [Conv.prefixIn, Conv.textIn] <;> omega))
+
+theorem intTypeNew_eq (k : Conv.Cls) (t : List Nat) : Gen.Conv.intTypeNew k t = intTypeNewSpec k t := by
+  cases k <;> simp [Gen.Conv.intTypeNew, intTypeNewSpec, Conv.isInst, Conv.ancestors] <;> dispatch_tail t
+
+theorem uintTypeNew_eq (k : Conv.Cls) (t : List Nat) : Gen.Conv.uintTypeNew k t = uintTypeNewSpec k t := by
+  cases k <;> simp [Gen.Conv.uintTypeNew, uintTypeNewSpec, Conv.isInst, Conv.ancestors] <;> dispatch_tail t
+
+theorem doubleTypeNew_eq (k : Conv.Cls) (t : List Nat) : Gen.Conv.doubleTypeNew k t = doubleTypeNewSpec k t := by
+  cases k <;> simp [Gen.Conv.doubleTypeNew, doubleTypeNewSpec, Conv.isInst, Conv.ancestors] <;> dispatch_tail t
+
+theorem stringTypeNew_eq (k : Conv.Cls) (t : List Nat) : Gen.Conv.stringTypeNew k t = stringTypeNewSpec k t := by
+  cases k <;> simp [Gen.Conv.stringTypeNew, stringTypeNewSpec, Conv.isInst, Conv.ancestors] <;> dispatch_tail t
+
+theorem bytesTypeNew_eq (k : Conv.Cls) (t : List Nat) : Gen.Conv.bytesTypeNew k t = bytesTypeNewSpec k t := by
+  cases k <;> simp [Gen.Conv.bytesTypeNew, bytesTypeNewSpec, Conv.isInst, Conv.ancestors] <;> dispatch_tail t
+
+theorem boolTypeNew_eq (k : Conv.Cls) (t : List Nat) : Gen.Conv.boolTypeNew k t = boolTypeNewSpec k t := by
+  cases k <;> simp [Gen.Conv.boolTypeNew, boolTypeNewSpec, Conv.isInst, Conv.ancestors] <;> dispatch_tail t
+
+/-- the class hierarchy the dispatch is evaluated over is the one the `class` statements declare -/
+theorem classBases_eq : Gen.Conv.classBases = Conv.celBases := by decide
+theorem ancestors_follow_bases : ∀ p ∈ Conv.celBases, Conv.ancestors p.1 = p.1 :: Conv.ancestors p.2 := by decide
+
 theorem timestampTypeNewTests_eq : Gen.Conv.timestampTypeNewTests =
     ["isinstance(source, datetime.datetime)", "isinstance(source, int) and len(args) >= 2", "isinstance(source, str)", "else"] := rfl
 theorem timestampTypeStrBranch_eq : Gen.Conv.timestampTypeStrBranch =
